@@ -1,6 +1,7 @@
 package config
 
 import (
+	"fmt"
 	"go.minekube.com/gate/pkg/edition/java/proto/util"
 	"go.minekube.com/gate/pkg/gate/proto"
 	"io"
@@ -18,7 +19,11 @@ func (p *TagsUpdate) Decode(c *proto.PacketContext, rd io.Reader) (err error) {
 		return err
 	}
 
-	p.Tags = make(map[string]map[string][]int, size)
+	if size < 0 {
+		return fmt.Errorf("got a negative-length tag registry list (%d)", size)
+	}
+	// The announced sizes are untrusted: never pre-allocate more than the shared cap.
+	p.Tags = make(map[string]map[string][]int, min(size, util.MaxPreAllocSize))
 	for i := 0; i < size; i++ {
 		key, err := util.ReadString(rd)
 		if err != nil {
@@ -30,7 +35,10 @@ func (p *TagsUpdate) Decode(c *proto.PacketContext, rd io.Reader) (err error) {
 			return err
 		}
 
-		innerMap := make(map[string][]int, innerSize)
+		if innerSize < 0 {
+			return fmt.Errorf("got a negative-length tag list (%d)", innerSize)
+		}
+		innerMap := make(map[string][]int, min(innerSize, util.MaxPreAllocSize))
 		for j := 0; j < innerSize; j++ {
 			innerKey, err := util.ReadString(rd)
 			if err != nil {
